@@ -187,6 +187,84 @@ Proof.
   destruct (routed (d0 :: d)); [eapply mkdirs_spec; eassumption | inv H; split; [assumption | reflexivity]].
 Qed.
 
+(* --- mkdir / rmdir / rmdirs: directories only, no file changes ------------------------------------------------- *)
+Lemma file_at_upd_dir_entry : forall g pcs root es,
+  locate root pcs = LFound (NDir es) ->
+  (forall x r, file_at (NDir (g es)) (x :: r) = file_at (NDir es) (x :: r)) ->
+  forall cs, file_at (upd_dir g root pcs) cs = file_at root cs.
+Proof.
+  intros g pcs root es Hl Hg cs. destruct (prefix_cases pcs cs) as [[rest A]|A].
+  - subst cs. unfold file_at at 1 2. rewrite (locate_upd_dir_below _ _ _ _ _ Hl). rewrite (locate_app _ _ _ _ Hl).
+    destruct rest as [|x r]; [reflexivity|]. apply Hg.
+  - eapply file_at_upd_dir_frame; eassumption.
+Qed.
+
+Lemma mkdir_spec : forall root p root', wf_node root = true -> mkdir root p = FOk root' ->
+  wf_node root' = true /\ forall cs, file_at root' cs = file_at root cs.
+Proof.
+  intros root p root' W H. unfold mkdir, parent_and_name in H.
+  destruct (rsplit p) as [[h name]|]; [|discriminate].
+  destruct (locate root (components h)) as [[x|es]| |] eqn:Eh; try discriminate.
+  destruct (alookup name es) as [y|] eqn:Ea; [discriminate|]. inv H. split.
+  - apply wf_upd_dir; [|assumption]. intros es0 A B. split; [apply names_nodup_aset; exact A | apply kids_wf_aset; [reflexivity | exact B]].
+  - apply (file_at_upd_dir_entry _ _ _ _ Eh). intros x r. rewrite !file_at_dir_cons.
+    destruct (str_eq_dec x name) as [E|E].
+    + subst x. rewrite alookup_aset_same, Ea. destruct r; reflexivity.
+    + rewrite alookup_aset_other by assumption. reflexivity.
+Qed.
+
+Lemma rmdir_spec : forall root p root', wf_node root = true -> rmdir root p = FOk root' ->
+  wf_node root' = true /\ forall cs, file_at root' cs = file_at root cs.
+Proof.
+  intros root p root' W H. unfold rmdir, parent_and_name in H.
+  destruct (rsplit p) as [[h name]|]; [|discriminate].
+  destruct (locate root (components h)) as [[x|es]| |] eqn:Eh; try discriminate.
+  destruct (alookup name es) as [[y|[|e0 es']]|] eqn:Ea; try discriminate. inv H.
+  assert (Hnd : names_nodup es = true).
+  { pose proof (wf_locate _ _ _ W Eh) as X. simpl in X. apply andb_true_iff in X. tauto. }
+  split; [apply wf_remove; assumption|].
+  apply (file_at_upd_dir_entry _ _ _ _ Eh). intros x r. rewrite !file_at_dir_cons.
+  destruct (str_eq_dec x name) as [E|E].
+  - subst x. rewrite alookup_aremove_same by assumption. rewrite Ea. destruct r; reflexivity.
+  - rewrite alookup_aremove_other by assumption. reflexivity.
+Qed.
+
+Lemma file_at_empty_dir : forall n cs, is_empty_dir n = true -> file_at n cs = None.
+Proof. intros [c|[|e es]] cs H; try discriminate. destruct cs; reflexivity. Qed.
+
+Lemma rmdirs_at_spec : forall cs n n' b, wf_node n = true -> rmdirs_at n cs = FOk (n', b) ->
+  wf_node n' = true /\ (forall cs', file_at n' cs' = file_at n cs') /\ (b = true -> forall cs', file_at n cs' = None).
+Proof.
+  induction cs as [|c cs IH]; intros n n' b W H.
+  - simpl in H. destruct (is_empty_dir n) eqn:E; [|discriminate]. inv H. split; [assumption|]. split; [reflexivity|].
+    intros _ cs'. apply file_at_empty_dir. exact E.
+  - simpl in H. destruct n as [x|es]; [discriminate|].
+    simpl in W. apply andb_true_iff in W. destruct W as [W1 W2].
+    destruct (alookup c es) as [[y|es1]|] eqn:Ea; try discriminate.
+    destruct (rmdirs_at (NDir es1) cs) as [[ch' b']|e] eqn:Er; [|discriminate].
+    destruct (IH _ _ _ (kids_wf_lookup _ _ _ W2 Ea) Er) as [Wc [Fc Ec]].
+    destruct b'.
+    + inv H. split; [simpl; rewrite names_nodup_aremove, kids_wf_aremove by assumption; reflexivity|]. split.
+      * intros [|x r]; [reflexivity|]. rewrite !file_at_dir_cons. destruct (str_eq_dec x c) as [E|E].
+        -- subst x. rewrite alookup_aremove_same by assumption. rewrite Ea. symmetry. apply (Ec eq_refl).
+        -- rewrite alookup_aremove_other by assumption. reflexivity.
+      * intros Hb [|x r]; [reflexivity|]. rewrite file_at_dir_cons.
+        destruct (aremove c es) as [|e0 l0] eqn:Erm; [|discriminate].
+        destruct (str_eq_dec x c) as [E|E]; [subst x; rewrite Ea; apply (Ec eq_refl)|].
+        rewrite <- (alookup_aremove_other x c es E). rewrite Erm. reflexivity.
+    + inv H. split; [simpl; rewrite names_nodup_aset by assumption; simpl; apply kids_wf_aset; assumption|]. split.
+      * intros [|x r]; [reflexivity|]. rewrite !file_at_dir_cons. destruct (str_eq_dec x c) as [E|E].
+        -- subst x. rewrite alookup_aset_same, Ea. apply Fc.
+        -- rewrite alookup_aset_other by assumption. reflexivity.
+      * discriminate.
+Qed.
+Lemma rmdirs_spec : forall root p root', wf_node root = true -> rmdirs root p = FOk root' ->
+  wf_node root' = true /\ forall cs, file_at root' cs = file_at root cs.
+Proof.
+  intros root p root' W H. unfold rmdirs in H. destruct (rmdirs_at root (components p)) as [[r b]|e] eqn:E; [|discriminate].
+  inv H. destruct (rmdirs_at_spec _ _ _ _ W E) as [A [B _]]. split; assumption.
+Qed.
+
 (* --- one operation ------------------------------------------------------------------------------------------ *)
 Lemma write_after_parent : forall root p m c,
   wf_node root = true -> routed p = true ->
@@ -219,7 +297,7 @@ Theorem step_spec : forall root o root' out,
 Proof.
   intros root o root' out W H. unfold step in H.
   destruct (routed (op_path o)) eqn:Hr; simpl in H; [|inv H; split; [assumption | reflexivity]].
-  destruct o as [p c|p|p|p|p|p|p|p m c|p m rs|p]; simpl in Hr.
+  destruct o as [p c|p|p|p|p|p|p|p m c|p m rs|p|p|p|p]; simpl in Hr.
   - (* save *)
     unfold upd2, save_text in H.
     destruct (match mk_parent root p with FErr e => (root, FErr e) | FOk r1 =>
@@ -245,6 +323,15 @@ Proof.
     destruct (write_after_parent _ _ _ _ W Hr _ _ E) as [W' F].
     destruct o as [[]|e]; inv H; split; try assumption; intro cs; rewrite F; reflexivity.
   - unfold obs in H. destruct (seq_read root p); inv H; split; try assumption; reflexivity.
+  - unfold upd in H. destruct (mkdir root p) as [r|e] eqn:E; inv H.
+    + destruct (mkdir_spec _ _ _ W E) as [W' F]. split; [assumption | exact F].
+    + split; [assumption | reflexivity].
+  - unfold upd in H. destruct (rmdir root p) as [r|e] eqn:E; inv H.
+    + destruct (rmdir_spec _ _ _ W E) as [W' F]. split; [assumption | exact F].
+    + split; [assumption | reflexivity].
+  - unfold upd in H. destruct (rmdirs root p) as [r|e] eqn:E; inv H.
+    + destruct (rmdirs_spec _ _ _ W E) as [W' F]. split; [assumption | exact F].
+    + split; [assumption | reflexivity].
 Qed.
 
 (* --- histories ------------------------------------------------------------------------------------------------ *)
@@ -399,7 +486,7 @@ Lemma track_step_inv : forall cs t a x, track_inv cs t a -> track_inv cs (track_
 Proof.
   intros cs t a [o out] Hinv. unfold track_step. simpl.
   destruct out; try exact Hinv.
-  destruct o as [p c|p|p|p|p|p|p|p m c|p m rs|p]; try exact Hinv; simpl.
+  destruct o as [p c|p|p|p|p|p|p|p m c|p m rs|p|p|p|p]; try exact Hinv; simpl.
   - destruct (strs_eqb (components p) cs) eqn:E; [exact I|].
     assert (Hne : cs <> components p) by (intro X; subst; rewrite strs_eqb_refl in E; discriminate).
     destruct t; simpl in *; try rewrite aupd_other by assumption; auto.
